@@ -61,6 +61,7 @@ func contractHasProp(c *Contract, prop string) bool {
 }
 
 type funcReport struct {
+	Dep     bool // verified as a dependency (callee contract the property's proof relies on), all clauses
 	Key     string
 	Res     *VerifyResult
 	X       *Exec
@@ -151,37 +152,81 @@ func cmdCheck(args []string) int {
 		fmt.Fprintf(os.Stderr, "govc: no function under contract carries property %s\n", prop)
 		return 2
 	}
-	reports := make([]*funcReport, len(keys))
-	var wg sync.WaitGroup
 	sem := make(chan struct{}, runtime.NumCPU())
-	for i, k := range keys {
-		wg.Add(1)
-		go func(i int, k string) {
-			defer wg.Done()
-			sem <- struct{}{}
-			defer func() { <-sem }()
-			t := time.Now()
-			fn := prog.Funcs[k]
-			rep := &funcReport{Key: k}
-			if c := prog.Contracts[k]; c != nil && c.Extern {
-				rep.Res = &VerifyResult{Key: k, Trusted: true}
-			} else if fn == nil {
-				rep.Res = &VerifyResult{Key: k, Aborted: "contract names a function that does not exist in the current tree"}
-			} else {
-				x := NewExec(prog, fn, prop)
-				x.findings = ff.Findings
-				rep.X = x
-				rep.Res = x.Verify()
-				if k == "packet.CRC16" && prop == "C03" {
-					x.crcMetaObligations()
-					rep.Res.Obls = x.obls
+	runKeys := func(keys []string, dep bool) []*funcReport {
+		reports := make([]*funcReport, len(keys))
+		var wg sync.WaitGroup
+		for i, k := range keys {
+			wg.Add(1)
+			go func(i int, k string) {
+				defer wg.Done()
+				sem <- struct{}{}
+				defer func() { <-sem }()
+				t := time.Now()
+				fn := prog.Funcs[k]
+				rep := &funcReport{Key: k, Dep: dep}
+				if c := prog.Contracts[k]; c != nil && c.Extern {
+					rep.Res = &VerifyResult{Key: k, Trusted: true}
+				} else if fn == nil {
+					rep.Res = &VerifyResult{Key: k, Aborted: "contract names a function that does not exist in the current tree"}
+				} else {
+					p := prop
+					if dep {
+						p = "" // every clause of a function the property's proof relies on
+					}
+					x := NewExec(prog, fn, p)
+					if dep {
+						x.depOf = prop
+					}
+					x.findings = ff.Findings
+					rep.X = x
+					rep.Res = x.Verify()
+					if k == "packet.CRC16" && prop == "C03" {
+						x.crcMetaObligations()
+						rep.Res.Obls = x.obls
+					}
+				}
+				rep.Seconds = time.Since(t).Seconds()
+				reports[i] = rep
+			}(i, k)
+		}
+		wg.Wait()
+		return reports
+	}
+	reports := runKeys(keys, false)
+	// dependency closure: the proofs above assumed the contracts of the callees at every call site.  Callees that
+	// carry no clause of this property would otherwise be verified only by another property's check; a change that
+	// breaks this property through such a callee would then be reported there, not here.  They are verified here
+	// too, with all their clauses, transitively.
+	var depKeys []string
+	if *only == "" && os.Getenv("GOVC_NOCLOSURE") == "" {
+		done := map[string]bool{}
+		for _, k := range keys {
+			done[k] = true
+		}
+		frontier := reports
+		for len(frontier) > 0 {
+			var next []string
+			for _, r := range frontier {
+				if r.Res == nil {
+					continue
+				}
+				for _, u := range r.Res.UsedContracts {
+					c := prog.Contracts[u]
+					fn := prog.Funcs[u]
+					if done[u] || c == nil || c.Extern || c.Trusted || fn == nil || fn.Blocks == nil {
+						continue
+					}
+					done[u] = true
+					next = append(next, u)
 				}
 			}
-			rep.Seconds = time.Since(t).Seconds()
-			reports[i] = rep
-		}(i, k)
+			sort.Strings(next)
+			frontier = runKeys(next, true)
+			reports = append(reports, frontier...)
+			depKeys = append(depKeys, next...)
+		}
 	}
-	wg.Wait()
 
 	var all []*Obligation
 	var covers []*Obligation
@@ -202,7 +247,7 @@ func cmdCheck(args []string) int {
 	// known findings: attach regions to matching obligations
 	for _, o := range all {
 		for _, f := range ff.Findings {
-			if f.Status != "open" || f.Property != prop {
+			if f.Status != "open" || (f.Property != prop && (o.x == nil || o.x.depOf == "")) {
 				continue
 			}
 			for _, pat := range f.Obligations {
@@ -353,6 +398,7 @@ func cmdCheck(args []string) int {
 	solverS := 0.0
 	secondAgreed := 0
 	var knownLines []string
+	depFindings := []string{}
 	findingSeen := map[string]bool{}
 	var samples []map[string]interface{}
 	var failed []*Obligation
@@ -384,6 +430,11 @@ func cmdCheck(args []string) int {
 	for _, c := range inRegion {
 		if c.Result.Status != "unsat" && !findingSeen[c.Finding.ID] {
 			findingSeen[c.Finding.ID] = true
+			if c.Finding.Property != prop {
+				// a finding of another property met in a dependency: recorded and reported by that property's check
+				depFindings = append(depFindings, fmt.Sprintf("%s (%s) at %s", c.Finding.ID, c.Finding.Property, c.Name))
+				continue
+			}
 			knownLines = append(knownLines, fmt.Sprintf("KNOWN-FINDING: property=%s %s [%s] obligation=%s", prop, c.Finding.What, c.Finding.ID, c.Name))
 		}
 	}
@@ -518,6 +569,7 @@ func cmdCheck(args []string) int {
 		}
 	}
 	sort.Strings(assumptions[8:])
+	sort.Strings(prog.RenameNotes)
 	ev := map[string]interface{}{
 		"property_id": prop, "tier": *tier, "seed": seed, "level": "proof", "wall_s": round2(wall), "violations": violations,
 		"coverage": map[string]interface{}{
@@ -530,6 +582,8 @@ func cmdCheck(args []string) int {
 			"inlined_without_contract": sortedKeys(inlined), "contracts_used_at_call_sites": sortedKeys(used),
 			"unmodelled_calls": sortedKeys(unmodelled), "engine_warnings": sortedKeys(warnings),
 			"engine_errors": engineErrors,
+			"dependency_closure": map[string]interface{}{"what": "callee contracts used by the proofs that carry no clause of this property: verified here too, all clauses, transitively", "functions": append([]string{}, depKeys...), "findings_of_other_properties_met": depFindings},
+			"renamed_variables_recovered": append([]string{}, prog.RenameNotes...),
 			"bounded":       boundedEvidence, "structural": structuralEvidence,
 			"traces_validated_against_impl": sc.Validated,
 			"translator_selfcheck": map[string]interface{}{"what": "proved post-conditions re-evaluated on real executions driven down the same path (inputs from the solver)", "sampled": sc.Sampled, "validated": sc.Validated, "no_model": sc.NoModel, "not_replayable": sc.NotReplayable, "failures": len(sc.Failures), "samples": sc.Samples},
@@ -540,6 +594,9 @@ func cmdCheck(args []string) int {
 		os.MkdirAll(filepath.Join(*verif, "evidence"), 0755)
 		b, _ := json.MarshalIndent(ev, "", " ")
 		os.WriteFile(filepath.Join(*verif, "evidence", prop+".json"), b, 0644)
+	}
+	for _, n := range prog.RenameNotes {
+		fmt.Println("note: " + n)
 	}
 	fmt.Printf("govc: property %s tier %s: %d functions under contract, %d obligations, %d discharged, %d violations, %d known findings, %.1fs\n",
 		prop, *tier, len(fuc), len(all), discharged, violations, len(knownLines), wall)
